@@ -21,9 +21,17 @@
 
 #include <cstring>
 #include <cstddef>
+#ifdef BLOC_VERIF
+#include <atomic>
+#endif
 
 namespace bloc
 {
+
+#ifdef BLOC_VERIF
+static std::atomic<verif_step_fn> verif_step(nullptr);
+void verif_set_step(verif_step_fn fn) { verif_step.store(fn); }
+#endif
 
 /**
  * These are all of the statement KEYWORDS we can parse.
@@ -45,6 +53,12 @@ Statement::~Statement()
 
 const Statement *Statement::execute(Context& ctx) const
 {
+#ifdef BLOC_VERIF
+  {
+    verif_step_fn fn = verif_step.load(std::memory_order_relaxed);
+    if (fn) fn(ctx, this);
+  }
+#endif
   bool trace = ctx.trace();
   _level = ctx.execLevel();
   if (trace) trace_pre(ctx);
